@@ -1516,6 +1516,8 @@ func (p *parser) index(child Node) (Node, bool, error) {
 		if err := p.advance(); err != nil {
 			return nil, false, err
 		}
+	} else {
+		return nil, false, &unexpectedTokenError{p.curr.Value}
 	}
 
 	if child == nil {
